@@ -126,6 +126,37 @@ def run(ctx):
             else:
                 r1.ok('position-character|%s' % short, loc=fn.loc(b))
 
+    # unit mixing: a UTF-16 quantity (Position.character, rangeLength) must not be compared or combined with a byte quantity
+    n_mix = 0
+    for k in sorted(fx.fns):
+        if not k.startswith(L) or '::tests::' in k:
+            continue
+        fn = F(fx.fns[k])
+        short = k[len(L):]
+        uses_units = False
+        for l, dl in fn.defs.items():
+            for (b, kd, rv) in dl:
+                if kd != 'A' or rv[0] != 'bin' or rv[1] not in ('Eq', 'Ne', 'Lt', 'Le', 'Gt', 'Ge', 'Sub', 'SubWithOverflow', 'Add', 'AddWithOverflow'):
+                    continue
+                oa, oc = operand_origins(fn, rv[2], through_ops=True), operand_origins(fn, rv[3], through_ops=True)
+
+                def unit(os):
+                    u16 = any(o[0] == 'field' and (o[1].endswith('Position.character') or o[1].endswith('TextDocumentContentChangeEvent.range_length')) for o in os) or \
+                        any(o[0] == 'call' and (o[2].endswith('len_utf16') or o[2].endswith('encode_utf16')) for o in os)
+                    byt = any(o[0] == 'call' and (o[2].endswith('lsp_utils::position_to_offset') or re.search(r'<impl str>::len$|String::len$', o[2])) for o in os)
+                    return u16, byt
+                ua, ba = unit(oa)
+                uc, bc = unit(oc)
+                if ua or uc:
+                    uses_units = True
+                if (ua and bc and not uc) or (uc and ba and not ua):
+                    n_mix += 1
+                    r1.bad('unit-mixing|%s' % short, 'a UTF-16 quantity (Position.character / rangeLength) is compared or combined with a byte quantity (offset or str::len): the two differ for every non-ASCII character', loc=fn.loc(b))
+        if uses_units:
+            r1.saw()
+    if n_mix == 0:
+        r1.ok('unit-mixing', detail='no comparison or arithmetic mixes UTF-16 and byte quantities')
+
     # ------------------------------------------------------------------ R2
     r2 = ctx.rule('C14.R2', 'Document.content and the analysed project text are written together under one lock region, only by the sync functions', floor=4)
     writers = {}
